@@ -247,3 +247,15 @@ func VerifDump(x any) map[string]any {
 	}
 	return nil
 }
+
+/*
+VerifBacking reports the address of the backing array and the capacity
+of the slice that holds the slots of the given Stack (zeroes for an
+uninitialised one). It only reads; it takes no lock.
+*/
+func VerifBacking(x Stack) (array uintptr, capacity int) {
+	if x.stack == nil {
+		return
+	}
+	return reflect.ValueOf(*x.stack).Pointer(), cap(*x.stack)
+}
